@@ -17,6 +17,8 @@ KEEP_PREFIX = 0
 U32 = 4294967295
 U64 = 18446744073709551615
 I64 = 9223372036854775807
+# 64-bit counts that no f64 holds exactly: a parser that goes through a float rounds them (seed C18-f)
+BIG = [2 ** 53 + 1, I64, U64 - 1, U64]
 
 
 def hx(s):
@@ -43,18 +45,18 @@ def rule_line(rng, op="rt", long=False):
         return head + " ref=%s calc=%s ctl=%s rel=%s thr=%s period=%d cold=%d maxq=%d ivl=%d lmu=%d hmu=%d lwm=%d hwm=%d" % (
             rng.choice(["-", "b", "c"]), rng.choice("dwmdwmc"), rng.choice("rtrtc"), rng.choice("ca"), rng.choice(THR),
             rng.choice([0, 3, U32]), rng.choice([0, 2, U32]), rng.choice([0, 10, U32]), rng.choice([0, 1000, U32]),
-            rng.choice([0, 7, U64]), rng.choice([0, 7, U64]), rng.choice([0, 1024, U64]), rng.choice([0, 2048, U64]))
+            rng.choice([0, 7] + BIG), rng.choice([0, 7] + BIG), rng.choice([0, 1024] + BIG), rng.choice([0, 2048] + BIG))
     if fam == "br":
         return head + " strat=%s retry=%d minreq=%d ivl=%d buckets=%d maxrt=%d thr=%s" % (
-            rng.choice("srcsrcx"), rng.choice([0, 1000, U32]), rng.choice([0, 5, U64]), rng.choice([0, 1000, U32]), rng.choice([0, 2, U32]),
-            rng.choice([0, 50, U64]), rng.choice(THR))
+            rng.choice("srcsrcx"), rng.choice([0, 1000, U32]), rng.choice([0, 5] + BIG), rng.choice([0, 1000, U32]), rng.choice([0, 2, U32]),
+            rng.choice([0, 50] + BIG), rng.choice(THR))
     if fam == "hs":
         spec = ""
         if rng.random() < 0.6:
-            spec = " spec=%s" % ",".join("%s:%d" % (k, rng.choice([0, 1, 7, U64])) for k in rng.sample(["x", "y", "z", "w"], rng.randint(1, 3)))
+            spec = " spec=%s" % ",".join("%s:%d" % (k, rng.choice([0, 1, 7] + BIG)) for k in rng.sample(["x", "y", "z", "w"], rng.randint(1, 3)))
         return head + " metric=%s ctl=%s idx=%d key=%s thr=%d maxq=%d burst=%d dur=%d cap=%d%s" % (
-            rng.choice("cq"), rng.choice("rtrtc"), rng.choice([0, 1, -1, -3, I64, -I64 - 1]), rng.choice(["-", "k"]), rng.choice([0, 5, U64]),
-            rng.choice([0, 10, U64]), rng.choice([0, 2, U64]), rng.choice([0, 1, U64]), rng.choice([0, 100, U64]), spec)
+            rng.choice("cq"), rng.choice("rtrtc"), rng.choice([0, 1, -1, -3, I64, -I64 - 1]), rng.choice(["-", "k"]), rng.choice([0, 5] + BIG),
+            rng.choice([0, 10] + BIG), rng.choice([0, 2] + BIG), rng.choice([0, 1] + BIG), rng.choice([0, 100] + BIG), spec)
     if fam == "iso":
         return head + " thr=%d" % rng.choice([0, 1, 5, U32])
     return head + " metric=%s strat=%s thr=%s" % (rng.choice(["load", "rt", "conc", "qps", "cpu"]), rng.choice(["no", "bbr"]), rng.choice(THR))
